@@ -39,7 +39,9 @@ CLAIMS = {
              "Py_ssize_t start / stop and every length its outputs describe exactly the slice of CPython's PySlice_AdjustIndices (empty "
              "iff that slice is empty, else the same start and length, inside the sequence), with no signed overflow; and "
              "IndexNode.analyse_as_pyobject for C-integer indices (Python side, 30 paths): a base typed str / bytes / bytearray / list / "
-             "tuple reaches the direct C helper only through the None check as_none_safe_node, whatever `nonecheck` says. "
+             "tuple reaches the direct C helper only through the None check as_none_safe_node, whatever `nonecheck` says; the `wraparound` flag handed to "
+             "the integer-index helpers (IndexNode.extra_index_params, fragment unit) is 1 for every signed index type - plain or explicitly signed - "
+             "unless the directive is off or the index is a constant >= 0. "
              "Kernel: integer indexing of exact lists, tuples, bytes and bytearrays; item assignment on lists "
              "and bytearrays; slice bounds of lists and tuples.",
         note="Trusted: dv C front end, dv/pyobj.py (element array model, PyList_GET_SIZE/PyTuple_GET_SIZE, generic access delegated to "
@@ -234,7 +236,8 @@ CLAIMS = {
              "incl. OverflowError outside range(0x110000) and the RFC 3629 bytes given to PyUnicode_DecodeUTF8; __Pyx_PyUnicode_BuildFromAscii "
              "(loop invariants, termination). Python side and call sites: ConstantFolding.visit_FormattedValueNode replaces an f-string field "
              "by its value only for a unicode literal (not a bytes literal); the emitted call for an f-string field on an EXTERNAL typedef "
-             "passes the full value to a helper of that type (L3 call-site unit, helpers by contract); the kind handed to __Pyx_PyUnicode_Join "
+             "passes the full value to a helper of that type, and a plain int formatted AFTER a narrower external typedef still reaches a helper of type int "
+             "(L3 call-site units on two catalogues, helpers by contract); the kind handed to __Pyx_PyUnicode_Join "
              "by the emitted f-string code covers every part's largest code point (L3 call-site unit L3join on three catalogue shapes: 'c', "
              "width+'c', 'd'; join and formatting helpers by contract). "
              "BOUNDED stand-in (labelled, not counted as proved): CIntLike._parse_format, which decides which "
@@ -318,7 +321,8 @@ CLAIMS = {
         text="Proof on the abstract CPython object model, for every C integer type of the matrix, that __Pyx_PyLong_As_<T> (compact, "
              "2-4 digit and C-API paths, all inlined real code from the generated module) returns the value of an exact int object when "
              "it fits T and (T)-1 with OverflowError otherwise, without UB in the digit arithmetic; and that __Pyx_PyLong_From_<T> "
-             "returns an exact int with the C value. For all int objects (all digit counts) at once.",
+             "returns an exact int with the C value. For all int objects (all digit counts) at once. Compiler side: a coercion node with a C integer "
+             "target passes no substitute converter to from_py_call_code (CoerceFromPyTypeNode.generate_result_code: the type's own checked converter is used).",
         note="Trusted: dv C front end; dv/pyobj.py: PyLong 3.12 representation contract (incl. ob_digit[0] == 0 for zero), documented "
              "contracts of PyLong_As*/PyLong_From*, allocation never fails, refcounts not modelled; z3. Not covered: non-int arguments "
              "(__Pyx_PyNumber_Long: floats are accepted through nb_int - observed, deliberate upstream behaviour, not claimed), "
